@@ -67,6 +67,7 @@ pub const GRAPHS: &[&[(&str, &[&str])]] = &[
     &[("Main", &["Aa", "Bb"]), ("Aa", &[]), ("Bb", &[])],
     &[("Main", &["Bb"]), ("Bb", &["Aa"]), ("Aa", &[])],
     &[("Main", &["Aa", "Bb"]), ("Bb", &["Aa"]), ("Aa", &[])],
+    &[("Main", &["Aa", "Bb"]), ("Aa", &["Cc"]), ("Bb", &["Cc"]), ("Cc", &[])],
 ];
 
 pub struct World {
@@ -278,6 +279,58 @@ impl World {
                 let i = text.rfind("\n  \"deps\": ").unwrap_or(0);
                 Self::mutate_iface_text(&text[i..], "deps", 2).map(|t| format!("{}{}", &text[..i], t))
             }
+            "core.deps.current" | "core.deps.drop" => {
+                // targeted edits of the core's own copy of the pinned hashes: make it agree with what
+                // the dependencies export NOW (or forget the dependency) — the edit a stale core needs
+                let i = text.rfind("\n  \"deps\": ").unwrap_or(0);
+                let tail = &text[i..];
+                let open = "\n  \"deps\": {";
+                if !tail.starts_with(open) || tail.starts_with("\n  \"deps\": {}") {
+                    None
+                } else {
+                    let end = tail.find("\n  }").map(|k| k + "\n  }".len());
+                    match end {
+                        None => None,
+                        Some(end) => {
+                            let body = &tail[open.len()..end - "\n  }".len()];
+                            let mut entries: Vec<(String, String)> = Vec::new();
+                            for line in body.lines() {
+                                let parts: Vec<&str> = line.trim().trim_end_matches(',').split("\": \"").collect();
+                                if parts.len() == 2 {
+                                    entries.push((parts[0].trim_start_matches('"').to_string(), parts[1].trim_end_matches('"').to_string()));
+                                }
+                            }
+                            let new_entries: Vec<(String, String)> = if field == "core.deps.drop" {
+                                Vec::new()
+                            } else {
+                                entries
+                                    .iter()
+                                    .map(|(d, h)| {
+                                        let cur = std::fs::read_to_string(self.art.join(format!("{}.interface", d)))
+                                            .ok()
+                                            .and_then(|t| serde_json::from_str::<serde_json::Value>(&t).ok())
+                                            .and_then(|v| v["interface_hash"].as_str().map(|s| s.to_string()));
+                                        (d.clone(), cur.unwrap_or_else(|| h.clone()))
+                                    })
+                                    .collect()
+                            };
+                            if new_entries == entries {
+                                None
+                            } else {
+                                let rendered = if new_entries.is_empty() {
+                                    "\n  \"deps\": {}".to_string()
+                                } else {
+                                    format!(
+                                        "\n  \"deps\": {{\n{}\n  }}",
+                                        new_entries.iter().map(|(d, h)| format!("    \"{}\": \"{}\"", d, h)).collect::<Vec<_>>().join(",\n")
+                                    )
+                                };
+                                Some(format!("{}{}{}", &text[..i], rendered, &tail[end..]))
+                            }
+                        }
+                    }
+                }
+            }
             "core.core_ir" => {
                 // change the literal returned by `value()`: a pure Core-IR edit
                 let i = text.find("\n  \"core_ir\": ").unwrap_or(0);
@@ -322,7 +375,8 @@ impl World {
 }
 
 const IFACE_FIELDS: [&str; 6] = ["format_version", "compiler_abi", "package", "exports", "deps", "interface_hash"];
-const CORE_FIELDS: [&str; 5] = ["core.format_version", "core.compiler_abi", "core.package", "core.deps", "core.core_ir"];
+const CORE_FIELDS: [&str; 7] =
+    ["core.format_version", "core.compiler_abi", "core.package", "core.deps", "core.core_ir", "core.deps.current", "core.deps.drop"];
 
 fn topo(graph: &'static [(&'static str, &'static [&'static str])]) -> Vec<&'static str> {
     let mut out: Vec<&'static str> = Vec::new();
@@ -464,6 +518,39 @@ pub fn main(args: &util::Args) {
             ops.push(tagged("link", order.iter().map(|p| a(*p)).collect()));
             run_history(&format!("cat:core:{}", k), g, &ops, &dir.join("w"), &mut out);
             k += 1;
+        }
+    }
+    // staleness catalogue: after an interface edit of P and a rebuild of P, rebuild EVERY subset of the
+    // other packages (in dependency order) and link everything: only the full set of dependents helps
+    for (gi, g) in GRAPHS.iter().enumerate() {
+        let order = topo(g);
+        for (pi, p) in order.iter().enumerate() {
+            let others: Vec<&'static str> = order.iter().filter(|q| *q != p).cloned().collect();
+            for mask in 0..(1u32 << others.len()) {
+                let mut ops: Vec<S> = order.iter().map(|q| tagged("build", vec![a(*q)])).collect();
+                ops.push(tagged("edit-iface", vec![a(*p), n(1 + (mask as usize + pi) % (IFACE_VARIANTS - 1))]));
+                ops.push(tagged("build", vec![a(*p)]));
+                for (k, q) in others.iter().enumerate() {
+                    if mask & (1 << k) != 0 {
+                        ops.push(tagged("build", vec![a(*q)]));
+                    }
+                }
+                // link inputs in both orders: the verdict must not depend on it
+                ops.push(tagged("link", order.iter().map(|q| a(*q)).collect()));
+                ops.push(tagged("link", order.iter().rev().map(|q| a(*q)).collect()));
+                run_history(&format!("cat:stale:{}:{}:{}", gi, p, mask), g, &ops, &dir.join("w"), &mut out);
+                // the same situation with the stale cores' own dependency tables edited to look current
+                for forge in ["core.deps.current", "core.deps.drop"] {
+                    let mut ops2: Vec<S> = ops[..ops.len() - 2].to_vec();
+                    for (k, q) in others.iter().enumerate() {
+                        if mask & (1 << k) == 0 {
+                            ops2.push(tagged("corrupt-core", vec![a(*q), a(forge)]));
+                        }
+                    }
+                    ops2.push(tagged("link", order.iter().map(|q| a(*q)).collect()));
+                    run_history(&format!("cat:forge:{}:{}:{}:{}", gi, p, mask, forge), g, &ops2, &dir.join("w"), &mut out);
+                }
+            }
         }
     }
     // every interface variant changes the hash; returning to a variant restores it
